@@ -250,6 +250,20 @@ def group_below_st(draw, tier):
     platform = draw(st.sampled_from(["ios", "nxos"]))
     top = draw(G.ace_st(platform, kmax=0, seq=False, noise=False, established=False))
     side = draw(st.sampled_from(["src", "dst"]))
+    if draw(st.sampled_from(range(4))) == 2:
+        # groups on BOTH sides of the upper entry, their names related (one ends with / starts with the other);
+        # below it an entry whose address on one side lies in the OTHER side's group only
+        n1, n2 = draw(st.sampled_from([("WEB", "DMZ-WEB"), ("DMZ-WEB", "WEB"), ("G1", "G11"), ("NET-A", "A")]))
+        m1 = [[(G.POOL_BASE | 1 << 16 | draw(st.integers(0, 255)) << 8), 0xFF] for _ in range(draw(st.integers(1, 2)))]
+        m2 = [[(G.POOL_BASE | 2 << 16 | draw(st.integers(0, 255)) << 8), 0xFF] for _ in range(draw(st.integers(1, 2)))]
+        top["src"] = {"k": "group", "b": 0, "w": 0, "n": n1, "m": m1}
+        top["dst"] = {"k": "group", "b": 0, "w": 0, "n": n2, "m": m2}
+        bottom = dict(top)
+        inner = draw(st.sampled_from(m1 if side == "dst" else m2))  # a network of the other side's group
+        bottom[side] = G.native_addr((inner[0] | draw(st.integers(0, 255)), 0), platform)
+        items = [{"t": "ace", "rec": G.to_native(top, platform)}, {"t": "ace", "rec": G.to_native(bottom, platform)}]
+        acl = {"platform": platform, "name": "T", "type": "extended", "items": items, "prefix": "= ", "group_by": "", "indent": "  "}
+        return {"acl": acl, "skip": None}
     a, b = draw(st.one_of(group_under_net(), group_under_wild(), group_under_wild(), adjacent_run_group()))
     bottom = dict(top)
     for rec, ad in ((top, a), (bottom, b)):
